@@ -111,7 +111,7 @@ func (ul *Upstreams) openStream(subProtocol string) (result streams.ReadWriteClo
 		return nil, true, err
 	}
 
-	stream := streams.NewNamedStream(conn, session.RemoteAddr().String())
+	stream := streams.NewNamedStream(streams.NewMuxStream(conn), session.RemoteAddr().String())
 	err = ms.SelectProtoOrFail(fmt.Sprintf("/%s", subProtocol), stream)
 	if err != nil {
 		if e := streams.LogClose(stream); e != nil {
